@@ -16,6 +16,7 @@ mod git_commit_parser;
 mod pos_conv;
 // --- harness ---
 mod common;
+mod c16;
 mod c07;
 mod c04;
 mod c05;
@@ -100,6 +101,7 @@ fn main() {
         "C05" => c05::run(&ctx),
         "C04" => c04::run(&ctx),
         "C07" => c07::run(&ctx),
+        "C16" => c16::run(&ctx),
         _ => {
             eprintln!("unknown property {}", prop);
             std::process::exit(2);
